@@ -235,7 +235,7 @@ def results_cases(draw):
             cont["units"].append([a, 1.0, 3.0, lab])
     cs["sampler"] = draw(st.sampled_from(["statistical", "shuffle"]))
     cs["soft"] = draw(st.sampled_from([False, False, True]))
-    cs["n_samples"] = draw(st.integers(1, 4))
+    cs["n_samples"] = draw(st.integers(1, 7))      # more samples than worker threads (2 inside a shard), not a multiple of them
     cs["seed"] = draw(st.integers(0, 2 ** 31 - 1))
     return cs
 
